@@ -747,21 +747,22 @@ def spec_c19(tier, seed):
     auths = [[0, 0], [0, 1], [1, 0], [1, 1], [1, 2], [2, 0], [2, 1]] + ([] if q else [[2, 2], [0, 2]])
     parts = [{'rt': rt, 'auth': a, 'decoys': d} for rt in range(5) for a in auths for d in ((True,) if q else (True, False))]
     if q:
-        parts = [dict(p, styles=[0, 3] if (p['rt'] + p['auth'][0]) % 2 else [1, 2], positions=[0, 2] if p['auth'][1] else [1, 2]) for p in parts]
+        parts = [dict(p, styles=([0, 3] if (p['rt'] + p['auth'][0]) % 2 else [1, 2]) + ([4] if p['auth'] in ([0, 0], [1, 1]) else []),
+                      positions=[0, 2] if p['auth'][1] else [1, 2]) for p in parts]
     return dict(
         conds=[Cond('c19_routing', 'c_dispatch', parts=parts, timeout=600)],
         explanation='a real RSocketServer with RoutingRequestHandler + RequestRouter built through the public decorators; the route '
                     'table is described by three booleans (target handler / unknown-route handler for the target type / all other '
-                    'handlers = decoys), handlers in 4 parameter styles; a request of each of the 5 routable interaction types with '
+                    'handlers = decoys), handlers in 5 parameter styles (the fifth: a message type produced by a payload deserializer, the raw payload and the composite metadata); a request of each of the 5 routable interaction types with '
                     'route in {a, b, unregistered}, the route entry first / middle / last in the composite metadata (optionally two '
                     'tags), an authentication entry (absent / simple / bearer), a verifier (none / accepts / rejects) and a filler '
                     'entry with symbolic content arrives as real frames; a 15-line reference dispatch decides which recording '
                     'coroutine must have run, with which arguments, and what the requester must see (value / one ERROR on that '
                     'request / nothing for one-way requests); the gate: with a verifier configured no handler of any type runs '
                     'without an accepted authentication entry.',
-        bounds=['5 interaction types x %d (verifier, authentication entry) combinations x decoys %s (partitions); per partition: 2^2 table booleans x 4 parameter styles x 3 routes x 3 positions x 1-2 tags' % (len(auths), 'present' if q else 'present/absent'),
+        bounds=['5 interaction types x %d (verifier, authentication entry) combinations x decoys %s (partitions); per partition: 2^2 table booleans x 5 parameter styles x 3 routes x 3 positions x 1-2 tags' % (len(auths), 'present' if q else 'present/absent'),
                 'route names are selectors (a symbolic string used as a dict key is realised by the engine); filler entry content symbolic'],
-        outside=['more than 2 registered routes per type, payload (de)serializers, route names other than the three'],
+        outside=['more than 2 registered routes per type, payload serializers for responses, route names other than the three'],
         functions=['rsocket.routing.request_router.RequestRouter.route', 'rsocket.routing.request_router.RequestRouter._collect_route_arguments',
                    'rsocket.routing.request_router.RequestRouter._get_unknown_route', 'rsocket.routing.request_router.decorator_factory',
                    'rsocket.routing.routing_request_handler.RoutingRequestHandler._parse_and_route', 'rsocket.routing.routing_request_handler.RoutingRequestHandler._verify_authentication',
@@ -783,6 +784,7 @@ def spec_c20(tier, seed):
             Cond('c20_rx', 'c_client_channel_out', parts=parts, timeout=600),
             Cond('c20_rx', 'c_client_single', parts=[{'lib': l} for l in ('rx4', 'rx3')], timeout=300),
             Cond('c20_rx', 'c_handler_adapter', parts=parts, timeout=600),
+            Cond('c20_rx', 'c_handler_cancel', parts=[{'lib': l} for l in ('rx4', 'rx3')], timeout=300),
         ],
         explanation='the ReactiveX (v4) and Rx (v3) client and handler adapters driven on the virtual loop and compared with what '
                     'the core API would do, stated as the expected observer events / wire frames / delegate calls: inbound streams '
